@@ -1094,3 +1094,52 @@ LEVEL_NOTE = ("Trusted: Lean kernel (+propext, Classical.choice, Quot.sound), th
               "correspondence of the hand-written chain models, Python integers in the oracle. Modular arithmetic of "
               "ZmodN/M128 is taken to be Z/n (C07).")
 TECHNIQUE = "Lean 4 proof about translated formulas and a hand model + differential correspondence check + spec oracle"
+
+
+# ---- one curve run end to end (props/c15_ecmcurve.py; Model/EcmCurve.lean, Props/C15Stage2.lean): merged into this property
+import props.c15_ecmcurve as _ec
+
+K_OPS |= _ec.OPS
+LEAN += ["Ymq.Props.C15Stage2"]
+THEOREMS += [
+    "Ymq.C15.stage1_point_spec",
+    "Ymq.C15.stage1_point_of_smoothbase",
+    "Ymq.C15.baby_steps_spec",
+    "Ymq.C15.giant_steps_spec",
+    "Ymq.C15.stage2_index_sets",
+    "Ymq.C15.stage2_tables_cover",
+    "Ymq.C15.stage2_difference_vanishes",
+    "Ymq.C15.stage2_hit_product_zero",
+    "Ymq.C15.giant_range_sharp",
+]
+MODELLED += [
+    "ecm::ecm_curve end to end (Ymq/Model/EcmCurve.lean, every panic site a `none`): stage 1 (chain multiplication by every 64-bit "
+    "block in chunks of GCD_INTERVAL with check_gcd_factor and early return after each chunk, then the 1024-bit blocks and one more "
+    "check), assert!(is_valid), the baby steps (b coprime to d1 below d1/2, `gaps` table grown on demand, extended additions), the "
+    "giant steps (d1.G by chain multiplication, its double, then extended additions), the two-pass normalisation of y "
+    "(ExpModn.ynorm), the row-wise product of differences (d1 < 4000) or roots_eval + cumulative products, the final "
+    "check_gcd_factor and the returned pair; over abstract point operations (driver: the translated formulas over Z/n)",
+]
+_cases0, _oracle0, _klass0 = cases, oracle, klass
+
+
+def cases(tier, rng, extended=False):
+    yield from _ec.cases(_fork(rng, "C15-ecmcurve"), tier, extended)
+    yield from _cases0(tier, rng, extended)
+
+
+def oracle(case, ans):
+    if case.op in _ec.OPS:
+        if ans in ("hang", "abort", "?"):
+            return f"no value returned ({ans})"
+        if ans == "panic":
+            # only the generator's own invalid inputs (o=False) may panic
+            return "panic on a curve point (the domain ecm() passes)"
+        return _ec.oracle(case, ans)
+    return _oracle0(case, ans)
+
+
+def klass(case, ans):
+    if case.op in _ec.OPS:
+        return _ec.klass(case, ans)
+    return _klass0(case, ans)
